@@ -979,7 +979,11 @@ class Agent(dbus.service.Object):
             if (cmsg_level, cmsg_type) == (socket.IPPROTO_IP, socket.IP_TOS):
                 self.__logger.info('With TOS field %02x', cmsg_data[0])
         self._plain_sock[conv.key] = sock
-        self._recv_datagram(sock, data, conv, ip_tos)
+        try:
+            self._recv_datagram(sock, data, conv, ip_tos)
+        except Exception as err:
+            # one unusable datagram does not end reception on this socket
+            self.__logger.error('Failed to handle datagram on %s: (%s) %s', conv, type(err).__name__, err)
         return True
 
     def _starttls(self, sock, conv: Conversation, server_side: bool):
